@@ -13,7 +13,7 @@ def job(args):
     ov = apply_unified(sources, diff)
     if ov is None:
         return tid, prop, "n/a", []
-    v, rep = analyse_variant(prop, ov)
+    v, rep = analyse_variant(prop, ov, inherited_known=True)
     if v == "holds":
         return tid, prop, v, []
     detail = [rep] if isinstance(rep, str) else [f"{i.verdict} {i.rule} {i.site} {i.function}: {i.why[:170]}" for i in rep.instances if i.verdict not in ("HOLDS", "KNOWN")][:4]
